@@ -310,10 +310,13 @@ mut("c07-silent-guard-rewrite", "C07", "seqio/genbank_subparsers.go", "if len(s)
 mut("c12-revert-join-panic", "C12", "feature.go",
     "\t\t\t\tkeep = append(keep, indices[:len(locs)]...)\n\t\t\t} else {\n\t\t\t\tkeep = append(keep, indices...)\n\t\t\t}\n",
     "\t\t\t}\n\t\t\tkeep = append(keep, indices[:len(locs)]...)\n", ["IDX|gts.Repair"])
-mut("c12-group-key-no-props", "C12", "feature.go", 'key := fmt.Sprintf("%s:%v", f.Key, f.Props)', 'key := fmt.Sprintf("%s:%v", f.Key, len(f.Key))', ["GROUP-KEY|gts.Repair"])
+mut("c12-group-key-no-props", "C12", "feature.go", 'key := fmt.Sprintf("%q:%q", f.Key, f.Props)', 'key := fmt.Sprintf("%q:%v", f.Key, len(f.Key))', ["GROUP-KEY|gts.Repair"])
+mut("c12-group-key-unquoted-reverted", "C12", "feature.go", 'key := fmt.Sprintf("%q:%q", f.Key, f.Props)', 'key := fmt.Sprintf("%s:%v", f.Key, f.Props)', ["GROUP-KEY-INJECTIVE|gts.Repair|key-format"], note="the repaired defect, reintroduced")
+mut("c12-group-key-sprint-concat", "C12", "feature.go", 'key := fmt.Sprintf("%q:%q", f.Key, f.Props)', 'key := f.Key + ":" + fmt.Sprint(f.Props)', ["GROUP-KEY-INJECTIVE|gts.Repair|key-format"])
+mut("c12-group-key-silent-quoted-concat", "C12", "feature.go", 'key := fmt.Sprintf("%q:%q", f.Key, f.Props)', 'key := fmt.Sprintf("%q", f.Key) + ":" + fmt.Sprintf("%q", f.Props)', silent=True)
 mut("c12-force-always", "C12", "feature.go", 'force := ff[indices[0]].Key == "source"', 'force := ff[indices[0]].Key != ""', ["FORCE-SOURCE|gts.Repair"])
 mut("c12-no-copy", "C12", "feature.go", "\tgg := make([]Feature, len(ff))\n\tcopy(gg, ff)\n", "\tgg := ff\n", ["ONLY-LOC|gts.Repair|copy"])
-mut("c12-silent-group-key-order", "C12", "feature.go", 'key := fmt.Sprintf("%s:%v", f.Key, f.Props)', 'key := fmt.Sprintf("%v|%s", f.Props, f.Key)', silent=True)
+mut("c12-silent-group-key-order", "C12", "feature.go", 'key := fmt.Sprintf("%q:%q", f.Key, f.Props)', 'key := fmt.Sprintf("%q|%q", f.Props, f.Key)', silent=True)
 
 mut("c03-silent-sibling-local-rename", "C03", "location.go",
     "\tstart, end := ambiguous.Start, ambiguous.End\n\tif (0 <= n && i <= start) || (n < 0 && i < start) {\n\t\tstart = Max(i, start+n)\n\t}\n\tif (0 <= n && i < end) || (n < 0 && i <= end) {\n\t\tend = Max(i, end+n)\n\t}\n\tif start == end {\n\t\treturn Between(start)\n\t}\n\treturn Ambiguous{start, end}",
